@@ -136,24 +136,31 @@ Step(n) ==
   /\ committed' = committed \cup NewlyCommitted(n)
 
 \* ---- publish: the leader's message processing loop handles one batch
-\* recs: sequence of [v, pol]
+\* recs: sequence of [v, pol, big]; a message larger than the replication limit
+\* (big) is negatively acknowledged and left out of the batch, the others are
+\* stored at consecutive offsets
 G_Publish(recs) == Leading(Leader)
 N_Publish(recs) ==
   LET l == Leader
+      okr == SelectSeq(recs, LAMBDA r : ~r.big)
+      bad == {recs[i].v : i \in {j \in 1..Len(recs) : recs[j].big}}
       base == Len(log[l])
-      new == [i \in 1..Len(recs) |-> [e |-> meta.lepoch, v |-> recs[i].v]]
-      q == pend[l] \o [i \in 1..Len(recs) |-> [off |-> base + i - 1, pol |-> recs[i].pol, v |-> recs[i].v]]
+      new == [i \in 1..Len(okr) |-> [e |-> meta.lepoch, v |-> okr[i].v]]
+      q == pend[l] \o [i \in 1..Len(okr) |-> [off |-> base + i - 1, pol |-> okr[i].pol, v |-> okr[i].v]]
       io == IF l \in DOMAIN isrOff[l]
-            THEN [isrOff[l] EXCEPT ![l] = Max2(@, base + Len(recs) - 1)] ELSE isrOff[l]
-      cr == CommitRun(io, q, hw[l], [NewestAll EXCEPT ![l] = base + Len(recs) - 1])
-      lacks == {[v |-> recs[i].v, off |-> base + i - 1, pol |-> "LEADER"] : i \in {j \in 1..Len(recs) : recs[j].pol = "LEADER"}}
-  IN [Cur EXCEPT !.log = [log EXCEPT ![l] = @ \o new],
-                 !.ec = [ec EXCEPT ![l] = AssignFrom(@, new, base)],
-                 !.isrOff = [isrOff EXCEPT ![l] = io],
-                 !.hw = [hw EXCEPT ![l] = cr[1]],
-                 !.pend = [pend EXCEPT ![l] = cr[2]],
-                 !.obs = [acks |-> lacks \cup cr[3], nacks |-> {}],
-                 !.taint = taint \cup cr[4]]
+            THEN [isrOff[l] EXCEPT ![l] = Max2(@, base + Len(okr) - 1)] ELSE isrOff[l]
+      cr == CommitRun(io, q, hw[l], [NewestAll EXCEPT ![l] = base + Len(okr) - 1])
+      lacks == {[v |-> okr[i].v, off |-> base + i - 1, pol |-> "LEADER"] : i \in {j \in 1..Len(okr) : okr[j].pol = "LEADER"}}
+  IN IF okr = <<>>
+     THEN [Cur EXCEPT !.obs = [acks |-> {}, nacks |-> bad], !.nacked = nacked \cup bad]
+     ELSE [Cur EXCEPT !.log = [log EXCEPT ![l] = @ \o new],
+                      !.ec = [ec EXCEPT ![l] = AssignFrom(@, new, base)],
+                      !.isrOff = [isrOff EXCEPT ![l] = io],
+                      !.hw = [hw EXCEPT ![l] = cr[1]],
+                      !.pend = [pend EXCEPT ![l] = cr[2]],
+                      !.obs = [acks |-> lacks \cup cr[3], nacks |-> bad],
+                      !.nacked = nacked \cup bad,
+                      !.taint = taint \cup cr[4]]
 
 \* a message the leader refuses (too large / failed seal): negative ack, nothing stored
 G_PublishRejected(v) == Leading(Leader)
@@ -188,13 +195,13 @@ N_LagExpire(f) == [Cur EXCEPT !.caught = [caught EXCEPT ![f] = FALSE]]
 
 \* ---- ISR shrink requested by the leader, committed by the controller,
 \* applied by every replica that is up (RemoveFromISR + commit check)
-G_Shrink(f) == Leading(Leader) /\ f # Leader /\ f \in meta.isr /\ ~caught[f] /\ lagging = {}
+G_Shrink(f) == Leading(Leader) /\ f # Leader /\ f \in meta.isr /\ ~caught[f]
 N_Shrink(f) ==
   LET l == Leader
       rm(io) == [x \in (DOMAIN io) \ {f} |-> io[x]]
       cr == CommitRun(rm(isrOff[l]), pend[l], hw[l], NewestAll)
   IN [Cur EXCEPT !.meta = [meta EXCEPT !.isr = @ \ {f}, !.idx = @ + 1],
-                 !.isrOff = [r \in R |-> IF up[r] THEN rm(isrOff[r]) ELSE isrOff[r]],
+                 !.isrOff = [r \in R |-> IF up[r] /\ r \notin lagging THEN rm(isrOff[r]) ELSE isrOff[r]],
                  !.hw = [hw EXCEPT ![l] = cr[1]],
                  !.pend = [pend EXCEPT ![l] = cr[2]],
                  !.obs = [acks |-> cr[3], nacks |-> {}],
@@ -202,12 +209,12 @@ N_Shrink(f) ==
 
 \* ---- ISR expand: the code's guard is time based (seen and caught up within
 \* the lag window), not "log end >= HW"
-G_Expand(f) == Leading(Leader) /\ f # Leader /\ f \notin meta.isr /\ up[f] /\ caught[f] /\ lagging = {}
+G_Expand(f) == Leading(Leader) /\ f # Leader /\ f \notin meta.isr /\ up[f] /\ caught[f]
 N_Expand(f) ==
   LET add(io) == [x \in (DOMAIN io) \cup {f} |-> IF x = f THEN -1 ELSE io[x]]
       lacks == \E c \in committed : ~Has(f, c.o, c.rec)
   IN [Cur EXCEPT !.meta = [meta EXCEPT !.isr = @ \cup {f}, !.idx = @ + 1],
-                 !.isrOff = [r \in R |-> IF up[r] THEN add(isrOff[r]) ELSE isrOff[r]],
+                 !.isrOff = [r \in R |-> IF up[r] /\ r \notin lagging THEN add(isrOff[r]) ELSE isrOff[r]],
                  !.taint = IF lacks THEN taint \cup {"expand-lagging"} ELSE taint]
 
 G_Checkpoint(r) == up[r] /\ hwDisk[r] # hw[r]
@@ -323,6 +330,8 @@ G_ApplyMeta(f, reach) ==
 N_ApplyMeta(f, reach) ==
   LET res == Reconcile(f, Leader, ec[Leader], log[f], ec[f], reach) IN
   [Cur EXCEPT !.lagging = lagging \ {f},
+              \* ISR changes committed meanwhile are applied too
+              !.isrOff = [isrOff EXCEPT ![f] = [x \in meta.isr |-> IF x \in DOMAIN @ THEN @[x] ELSE -1]],
               !.role = [role EXCEPT ![f] = "follower"],
               !.log = [log EXCEPT ![f] = res[1]],
               !.ec = [ec EXCEPT ![f] = res[2]],
@@ -343,6 +352,13 @@ C02_CommittedSurvives ==
 C02_NoDivergence ==
   \A a, b \in R : \A o \in 0..(Len(log[a]) - 1) :
      (o <= hw[a] /\ o <= hw[b] /\ o < Len(log[b])) => log[a][o + 1] = log[b][o + 1]
+
+\* C02c: what the serving leader treats as committed (everything at or below its
+\* HW: that is what consumers are given and what ALL acks are sent for) really is
+\* stored by every in-sync replica
+C02_HWBacked ==
+  Leading(Leader) =>
+    \A o \in 0..hw[Leader] : o < Len(log[Leader]) => \A r \in meta.isr : Has(r, o, log[Leader][o + 1])
 
 \* C04 (evaluated on the step that emits the acks): an ALL ack only when every
 \* member of the in-sync set holds exactly that record at that offset and the
